@@ -278,7 +278,16 @@ def ob_totp_one_time(chk, ir):
         else:
             H.stub(f'(*{M}.RuntimeState).LoadUserProfile', sweep.st_load_profile)
         ps2 = totpk.call(H, s2, state, user, code, t2, 2); total += len(ps2)
-        for p2 in ps2:
+        # ... and the same presentation to ANOTHER daemon instance sharing the store (or after a restart): its in-memory per-user record is
+        # arbitrary, only the saved profile connects the two calls
+        other = []
+        if saved and not from_cache:
+            s3 = p1.fork()
+            RSt = ir.typeid(M + '.RuntimeState'); fi_ = ir.field_index(RSt, 'totpLocalRateLimit'); mt_ = ir.under(ir.fields(RSt)[fi_]['type'])[1]
+            ex.store(s3, Ptr(state.obj, (fi_,)), MapV(s3.alloc({'base': '*otherInstance.totpLocalRateLimit', 'elem': mt_['elem'], 'key': mt_['key'], 'writes': [], 'lazy': {}})))
+            other = totpk.call(H, s3, state, user, code, t2, 2); total += len(other)
+            for p3 in other: p3.aux['other_instance'] = True
+        for p2 in ps2 + other:
             if p2.status in ('unsupported', 'unwind', 'panic'): chk.absorb(ex, ps2); chk.obligation('totp-one-time', '-', 'inconclusive', p2.result); return
             if not z3.is_true(z3.simplify(p2.result[0])): continue
             n += 1
@@ -292,7 +301,7 @@ def ob_totp_one_time(chk, ir):
                 r_, m = ex.model_fresh(p2.pc + inj, cond, 60000)
                 if r_ == 'sat':
                     # (a success that is not persisted although the profile came from the primary store is NOT the recorded offline-cache case)
-                    site = 'validateUserTOTP/' + ('offline-cache/' if from_cache else 'not-persisted/' if not saved else '') + region
+                    site = 'validateUserTOTP/' + ('other-instance/' if p2.aux.get('other_instance') else '') + ('offline-cache/' if from_cache else 'not-persisted/' if not saved else '') + region
                     res = chk.violation('totp-one-time', site, f'a TOTP code accepted at t1 is accepted again at t2 ({region}' + (', profile not saved: offline cache' if from_cache else ', the accepted counter was not saved' if not saved else '') + ')', model_dict(m))
                     if res == 'new': verdict = 'violated'
                     elif verdict == 'holds': verdict = 'known'
